@@ -88,6 +88,9 @@ package pmm
 //@   at return 3: use cntFlip(old(bmc(pool(alloc, poolIndex))), bmc(pool(alloc, poolIndex)), bmb(pool(alloc, poolIndex)), uint64(relFrame), nfr(pool(alloc, poolIndex)))
 //@   at return 3: use forall(q, int, cntSame(old(bmc(pool(alloc, q))), bmc(pool(alloc, q)), bmb(pool(alloc, q)), bmb(pool(alloc, q)), nfr(pool(alloc, q))))
 //@   at return 3: use cntLe(bmc(pool(alloc, poolIndex)), bmb(pool(alloc, poolIndex)), nfr(pool(alloc, poolIndex)))
+//@   at return 3: use forall(i, int, 0 <= i && i < len(alloc.pools) && inPool(pool(alloc, i), frame) ==> i == poolIndex)
+//@   at return 3: use !held(pool(alloc, poolIndex), frame)
+//@   at return 3: use othersSame(alloc, poolIndex, frame)
 
 //@ func (alloc *BitmapAllocator) AllocFrame() (f mm.Frame, err *kernel.Error)
 //@   property C01 C03 C09
